@@ -41,7 +41,7 @@ def generate(tier, rng):
         calls = fc.all_calls(k, 2, nonnode=False)
         calls = rng.sample(calls, len(calls) // (4 if tier == "quick" else 1))
         for call in calls:
-            c = {"fam": "lockstep", "asrt": False, "n0": k, "ops": st + [call], "nmcls": rng.choice(["mixin", "node", "anynode", "eqmixin"]),
+            c = {"fam": "lockstep", "asrt": False, "n0": k, "ops": st + [call], "nmcls": rng.choice(["mixin", "node", "anynode", "eqmixin", "falsymixin"]),
                  "params": _params(rng, k + 1)}
             if rng.random() < 0.3:
                 c["ops"][-1] = dict(call, faults={"at": [rng.randrange(0, 8)]})
@@ -55,7 +55,7 @@ def generate(tier, rng):
                 o["faults"] = {"at": [rng.randrange(0, 10)]}
             elif r < 0.3:
                 o["faults"] = {"kinds": rng.sample(fc.ALL_KINDS, 2)}
-        c = {"fam": "lockstep", "asrt": False, "n0": n0, "ops": ops, "nmcls": rng.choice(["mixin", "node", "anynode", "eqmixin"]),
+        c = {"fam": "lockstep", "asrt": False, "n0": n0, "ops": ops, "nmcls": rng.choice(["mixin", "node", "anynode", "eqmixin", "falsymixin"]),
              "params": _params(rng, n0 + 3)}
         if rng.random() < 0.4:
             c["observe_each"] = True      # all read-only queries after every call, not only at the end
